@@ -310,6 +310,9 @@ class LRUCache(_CacheBase):
         if self._allow_cloudpickle and self.shared:
             value = cloudpickle.dumps(value)
         with self._cache_lock:
+            if key in self._cache_dict:
+                # Re-inserting a resident key only refreshes its value and recency
+                self._cache_queue.remove(key)
             self._cache_dict[key] = value
             cache_size = len(self._cache_queue)
             if cache_size < self.max_size:
